@@ -382,14 +382,15 @@ func shape(d directives.Directive) *Violation {
 		if v := first(date(x.Date), acc(x.Account)); v != nil {
 			return v
 		}
-		if !strings.HasPrefix(full, x.Date.Extract()) || !strings.HasSuffix(full, x.Account.Extract()) {
+		// annotation lines may precede any directive, so only the end of the directive text is fixed
+		if !strings.HasSuffix(full, x.Account.Extract()) {
 			return bad("open directive", full)
 		}
 	case directives.Close:
 		if v := first(date(x.Date), acc(x.Account)); v != nil {
 			return v
 		}
-		if !strings.HasPrefix(full, x.Date.Extract()) || !strings.HasSuffix(full, x.Account.Extract()) {
+		if !strings.HasSuffix(full, x.Account.Extract()) {
 			return bad("close directive", full)
 		}
 	case directives.Price:
@@ -403,7 +404,7 @@ func shape(d directives.Directive) *Violation {
 		if !quotedShape(x.IncludePath) {
 			return bad("include path", x.IncludePath.Extract())
 		}
-		if !strings.HasPrefix(full, "include") {
+		if !strings.HasPrefix(x.Extract(), "include") || !strings.HasSuffix(full, x.IncludePath.Extract()) {
 			return bad("include directive", full)
 		}
 	case directives.Assertion:
